@@ -34,12 +34,39 @@ COMPONENTS = {'real': ['enspara.cluster.util (reassign, batch_reassign, compute_
                        'enspara.util.load', 'mdtraj (readers, rmsd)', 'enspara.mpi.ops reassembly'],
               'stub': ['multiprocessing (simpool)', 'joblib.Parallel/delayed (simulated on simpool)', 'psutil.virtual_memory (drawn size)',
                        'auto_nprocs (drawn)', 'MPI library (simmpi)']}
-ASSUMPTIONS = ['RMSD values are compared with mdtraj\'s own rmsd on individually loaded files (relative 1e-5) and minimality is demanded '
-               'up to that tolerance; ties may be broken either way',
+ASSUMPTIONS = ['RMSD values are compared with a float64 Kabsch RMSD; the allowed deviation is an error model of the float32 computation '
+               '(64 eps32 x summed squared coordinates per atom, propagated through the square root); minimality is demanded up to that '
+               'tolerance; ties may be broken either way',
                'the simulated memory always leaves room for the longest file plus one frame (the equality case is outside the statement)']
 REACH_EXPECTED = ['multi_batch_reassign', 'single_batch_reassign', 'centers_as_trajectory', 'centers_as_list', 'two_topologies',
                   'ragged_reassign_output', 'square_reassign_output', 'partition_square', 'partition_ragged', 'partition_after_mpi',
                   'length1_trajectory', 'center_on_first_frame', 'center_on_last_frame', 'more_centers_than_frames', 'predict_new_data', 'predict_after_refit']
+
+
+def rmsd64(X, c):
+    """optimal-superposition RMSD in float64 (Kabsch); X: (n, atoms, 3), c: (atoms, 3).  Returns (rmsd, tol) per frame,
+    where tol bounds what a float32 implementation of the same quantity may deviate: the mean squared deviation is a
+    difference of O(G) terms (G = summed squared centred coordinates per atom), so its float32 error is ~ 64 eps32 G and
+    the error of its square root is that divided by 2 rmsd (or its square root, near zero)."""
+    X = np.asarray(X, dtype=np.float64)
+    c = np.asarray(c, dtype=np.float64)
+    c = c - c.mean(axis=0)
+    Gc = (c * c).sum()
+    out = np.zeros(len(X))
+    tol = np.zeros(len(X))
+    N = c.shape[0]
+    for i, x in enumerate(X):
+        x = x - x.mean(axis=0)
+        Gx = (x * x).sum()
+        H = x.T @ c
+        U, S, Vt = np.linalg.svd(H)
+        d = np.sign(np.linalg.det(U @ Vt))
+        tr = S[0] + S[1] + d * S[2]
+        msd = max(0.0, (Gx + Gc - 2 * tr) / N)
+        out[i] = np.sqrt(msd)
+        delta = 64 * np.finfo(np.float32).eps * (Gx + Gc) / N
+        tol[i] = np.sqrt(msd + delta) - out[i] + 1e-6
+    return out, tol
 
 
 def scenario(ctx):
@@ -159,10 +186,11 @@ def fam_reassign(ctx):
     centers = md.Trajectory(cxyz.copy(), ctop) if as_traj else [md.Trajectory(cxyz[i:i + 1].copy(), ctop) for i in range(K)]
     ctx.hit('centers_as_trajectory' if as_traj else 'centers_as_list')
     # reference: mdtraj's own rmsd on the individually loaded files
-    ref_c = md.Trajectory(cxyz.copy(), ctop)
-    refD = []
+    refD, refT = [], []
     for x in loaded:
-        refD.append(np.array([md.rmsd(x, ref_c, frame=i) for i in range(K)]))      # K x len
+        pairs = [rmsd64(x.xyz, cxyz[i]) for i in range(K)]
+        refD.append(np.array([p_[0] for p_ in pairs]))      # K x len, float64 Kabsch
+        refT.append(np.array([p_[1] for p_ in pairs]))      # float32 error model
     # simulated machine
     frac = t.choice((0.5, 0.25, 0.9))
     bpf = n_sel * 3 * 4
@@ -207,7 +235,7 @@ def fam_reassign(ctx):
         require(a.min() >= 0 and a.max() < K, 'label_out_of_range', lambda: 'trajectory %d labels %s with %d centres' % (i, a.tolist(), K))
         own = refD[i][a, np.arange(Ln)]
         best = refD[i].min(axis=0)
-        tol = 1e-5 * np.maximum(1.0, best) + 2e-6
+        tol = refT[i][a, np.arange(Ln)] + refT[i].max(axis=0)
         if np.any(np.abs(dd - own) > tol):
             f = int(np.argmax(np.abs(dd - own)))
             raise SimViolation('distance_mismatch', 'trajectory %d frame %d: reported %.8g, rmsd to its centre %d is %.8g (batches=%d)' %
@@ -354,8 +382,9 @@ def fam_assign(ctx):
         ctx.scenario.update(family='assign', kind=kind, frames=n, centers=K, centers_as_list=as_list)
         ctx.fp('assign-trj', n, K, as_list, X.xyz.tobytes(), Cn.xyz.tobytes())
         a, d = ctx.sut(U.assign_to_nearest_center, X, [Cn[i] for i in range(K)] if as_list else Cn, md.rmsd)
-        D = np.array([md.rmsd(X, Cn, frame=i) for i in range(K)])
-        check_assign(a, d, D, 1e-5)
+        pairs = [rmsd64(X.xyz, Cn.xyz[i]) for i in range(K)]
+        D = np.array([p_[0] for p_ in pairs])
+        check_assign(a, d, D, 0.0, abs_tol=np.array([p_[1] for p_ in pairs]).max(axis=0) * 2)
         if K >= 2:
             ctx.nontrivial = True
         return
@@ -416,7 +445,7 @@ def fam_assign(ctx):
         ctx.nontrivial = True
 
 
-def check_assign(a, d, D, rtol):
+def check_assign(a, d, D, rtol, abs_tol=0.0):
     a = np.asarray(a)
     d = np.asarray(d, dtype=float)
     K, n = D.shape
@@ -427,9 +456,9 @@ def check_assign(a, d, D, rtol):
         return
     own = D[a, np.arange(n)]
     best = D.min(axis=0)
-    tol = rtol * np.maximum(1.0, D.max())
+    tol = rtol * np.maximum(1.0, D.max()) + abs_tol
     if np.any(np.abs(d - own) > tol):
-        f = int(np.argmax(np.abs(d - own)))
+        f = int(np.argmax(np.abs(d - own) - tol))
         raise SimViolation('distance_mismatch', 'frame %d: reported %.17g, distance to its centre %d is %.17g' % (f, d[f], a[f], own[f]))
     if np.any(own > best + tol):
         f = int(np.argmax(own - best))
